@@ -636,11 +636,20 @@ func (ndb *nodeDB) DeleteVersionsFrom(fromVersion int64) error {
 		fromVersion = legacyLatestVersion + 1
 	}
 
-	// Delete the nodes for new format
+	// Delete the nodes for new format. The keys are collected first: the batch
+	// may be flushed at any Delete, and no write may happen within the domain of
+	// an open iterator.
+	var staleKeys [][]byte
 	if err = ndb.traverseRange(nodeKeyPrefixFormat.KeyInt64(fromVersion), nodeKeyPrefixFormat.KeyInt64(latest+1), func(k, _ []byte) error {
-		return ndb.batch.Delete(k)
+		staleKeys = append(staleKeys, ibytes.Cp(k))
+		return nil
 	}); err != nil {
 		return err
+	}
+	for _, k := range staleKeys {
+		if err = ndb.batch.Delete(k); err != nil {
+			return err
+		}
 	}
 
 	// NOTICE: we don't touch fast node indexes here, because it'll be rebuilt later because of version mismatch.
